@@ -827,6 +827,7 @@ Definition json_obs_eqb (a b : json_obs) : bool :=
   end.
 
 Record c40_case := {
+  cc_dollar_ok : bool; cc_tokens : list (bool * str);      (* for the generated parse_predicate_formula *)
   cc_ast : option expr; cc_comments : list str; cc_truthy : bool;
   cc_parse : cres pyval; cc_json : json_obs;
   cc_supported : bool; cc_in_subset : bool
